@@ -31,6 +31,7 @@ type PKICert struct {
 	Orgs     []string `json:"orgs"`
 	URIs     []string `json:"uris"`
 	SerialOf string   `json:"serial_of,omitempty"` // reuse the serial number of this (earlier) certificate
+	Critical bool     `json:"critical_ext,omitempty"` // carries a critical extension nobody knows (private OID)
 }
 
 type PKISpec struct {
@@ -139,6 +140,9 @@ func BuildPKI(spec PKISpec) (map[string]*BuiltCert, error) {
 			IsCA:                  cs.IsCA,
 			DNSNames:              cs.DNS,
 			EmailAddresses:        cs.Emails,
+		}
+		if cs.Critical {
+			tmpl.ExtraExtensions = []pkix.Extension{{Id: []int{1, 3, 6, 1, 4, 1, 55555, 1, 1}, Critical: true, Value: []byte{0x05, 0x00}}}
 		}
 		if cs.IsCA {
 			tmpl.KeyUsage = x509.KeyUsageCertSign | x509.KeyUsageDigitalSignature
